@@ -4,7 +4,12 @@ SPEC_PART = dict(
                panic_is_violation=True),
           dict(family="bloom", focus="extremes-huge", oracles=["no_panic"], profiles=["debug", "release"], n_quick=8, n_thorough=60,
                panic_is_violation=True)],
-    trusted=["bloom: panic sites modelled as Stuck: builder range assertions, compatibility assertion of union/intersect, the subtraction "
+    trusted=["bloom: ops 18 (clone probe) and 19 (round-trip check) are answered by the model with a constant justified by a theorem (no false negatives; round trip + size formula): they are Spec checks on the crate (plus panic detection), not model-vs-crate comparisons of computed positions / bytes; used for filters with thousands of hash functions and for 2^20-bit filters",
+             "bloom: with_accuracy's assertions (max_items > 0, fpp in (0, 1]) and its float arithmetic / float->integer casts "
+             "(ln-based sizing, ceil, `as u64`, clamp) have no Coq counterpart: the model receives the generator's recomputation of "
+             "(num_bits, num_hashes) and the oracle only demands what the builder documents (capacity >= 64, multiple of 64, "
+             "1 <= num_hashes <= 32767); covered by the harness only",
+             "bloom: panic sites modelled as Stuck: builder range assertions, compatibility assertion of union/intersect, the subtraction "
              "in invert; indexing, % capacity and num_bits_set += 1 are covered by explicit bounds in c17_bloom_ops_safe"],
     assumptions=["bloom: builder arguments within the documented ranges (1 <= num_bits <= MAX_NUM_BITS, 1 <= num_hashes <= 32767), "
                  "union / intersect operands compatible"],
